@@ -23,7 +23,11 @@ static USER_ID: AtomicU32 = AtomicU32::new(1);
 const MAX_USERS: usize = u32::MAX as usize;
 
 impl System {
-    pub(crate) async fn load_users(&mut self, users: Vec<UserState>) -> Result<(), IggyError> {
+    pub(crate) async fn load_users(
+        &mut self,
+        users: Vec<UserState>,
+        last_user_id: u32,
+    ) -> Result<(), IggyError> {
         info!("Loading users...");
         if users.is_empty() {
             info!("No users found, creating the root user...");
@@ -76,7 +80,11 @@ impl System {
         }
 
         let users_count = self.users.len();
-        let current_user_id = self.users.keys().max().unwrap_or(&1);
+        // User IDs are not journalled: the state replay numbers the users in the order of their
+        // creation, deleted ones included. Continue after the last ID ever given, not after the
+        // highest one still in use - otherwise a user created after the newest one was deleted
+        // gets an ID here that the next replay will not give it.
+        let current_user_id = (*self.users.keys().max().unwrap_or(&1)).max(last_user_id);
         USER_ID.store(current_user_id + 1, Ordering::SeqCst);
         self.permissioner
             .init(&self.users.values().collect::<Vec<&User>>());
